@@ -224,6 +224,15 @@ def run_case(case):
                 nx = rv(10 ** r.uniform(-2, 2))
                 if r.random() < 0.2:
                     nz = r.choice([[0, 0, 1.0], [0, 0, -1.0], [0, 0, -3.0], [1.0, 0, 0]])
+                if r.random() < 0.25:
+                    # newx chosen so that it lands within delta of -x after the first stage (newz -> z)
+                    q1 = Rotation.from_to(nz, [0, 0, 1.0])
+                    dl = 10 ** r.uniform(-12, -3) * r.choice([-1, 1, 0])
+                    s_ = 10 ** r.uniform(-2, 2)
+                    nx = list(q1.inverse() * [-s_, s_ * dl, 0.0])
+                    if r.random() < 0.5:
+                        nx = [nx[i] + 0.3 * nz[i] for i in range(3)]
+                    counters['to_new_axes_near_minus_x'] = counters.get('to_new_axes_near_minus_x', 0) + 1
                 q = Rotation.to_new_axes(newz=nz, newx=nx)
                 info = 'newz=%r newx=%r' % (nz, nx)
                 if check_rotation(q, which, info):
@@ -232,14 +241,14 @@ def run_case(case):
                     px_ = [nx[i] - d_ * nz[i] for i in range(3)]
                     amp = nrm(nx) / max(nrm(px_), 1e-300)        # newx nearly parallel to newz: its perpendicular part is ill conditioned
                     # composition of two (possibly two-stage) from_to rotations: a few thousand eps
-                    if abs(w[0]) > 1e-11 * nrm(nz) * amp or abs(w[1]) > 1e-11 * nrm(nz) * amp or w[2] < 0:
+                    if abs(w[0]) > 256 * EPS * nrm(nz) * amp or abs(w[1]) > 256 * EPS * nrm(nz) * amp or w[2] < 0:
                         add('rotation:to_new_axes-newz-not-on-z', '%s: q*newz=%r' % (info, w))
                     # the component of newx perpendicular to newz must land on +x
                     d = sum(nx[i] * nz[i] for i in range(3)) / nrm(nz) ** 2
                     px = [nx[i] - d * nz[i] for i in range(3)]
                     if nrm(px) > 1e-6 * nrm(nx):
                         w = rot(q, px)
-                        if abs(w[1]) > 1e-9 * nrm(px) or abs(w[2]) > 1e-9 * nrm(px) or w[0] < 0:
+                        if abs(w[1]) > 1e-12 * nrm(px) * amp or abs(w[2]) > 1e-12 * nrm(px) * amp or w[0] < 0:
                             add('rotation:to_new_axes-newx-not-on-x', '%s: q*newx_perp=%r' % (info, w))
             elif which == 'orbit':
                 Om, inc, om = r.uniform(0, 2 * math.pi), r.choice([r.uniform(1e-3, math.pi - 1e-3), 0.0, math.pi]), r.uniform(0, 2 * math.pi)
